@@ -375,8 +375,8 @@ def gen(rng, tier):
     for ty in TNAMES:
         size, _ = TYPES[ty]
         for rank in range(1, 6):
-            for _ in range(4 if thorough else 1):
-                ds = _dims(rng, rank, (12000 if thorough else 2400) // size)
+            for _ in range(8 if thorough else 2):
+                ds = _dims(rng, rank, (16000 if thorough else 3200) // size)
                 ops.append(f"codec obj tensor {ty} {rank} {' '.join(map(str, ds))} {seed()}")
     # a few large ones (all dims 6 at rank 4/5) with 1-byte scalars, so that 'dims up to 6' is reached at every rank
     for ty, ds in ([("u8", [6, 6, 6, 6, 6]), ("i8", [6, 6, 6, 6])] if thorough else [("i8", [6, 6, 6, 6])]):
@@ -384,31 +384,31 @@ def gen(rng, tier):
 
     # 2. parameters, configurables, features
     for v in PARAM_VARIANTS:
-        for _ in range(12 if thorough else 4):
+        for _ in range(40 if thorough else 10):
             ops.append(f"codec obj param {v} {seed()}")
     for n in range(0, 9):
-        for _ in range(4 if thorough else 1):
+        for _ in range(10 if thorough else 3):
             ops.append(f"codec obj configurable {n} {seed()}")
-    for _ in range(60 if thorough else 12):
+    for _ in range(150 if thorough else 30):
         ops.append(f"codec obj feature {seed()}")
 
     # 3. every id of the factories of plain configurables, randomly configured
     for which, n in FACTORIES.items():
         for k in range(n):
-            for _ in range(3 if thorough else 1):
+            for _ in range(6 if thorough else 1):
                 ops.append(f"codec obj factory {which} @{k} {seed()}")
 
     # 4. weak learners (unfitted prototypes and fitted on tiny datasets), linear models, gboost models
     for wid in WLEARNERS:
         ops.append(f"codec obj wlearner {wid} 0 {seed()}")
-        for _ in range(8 if thorough else 2):
-            ops.append(f"codec obj wlearner {wid} {rng.range(12, 50)} {seed()}")
+        for _ in range(30 if thorough else 5):
+            ops.append(f"codec obj wlearner {wid} {rng.range(12, 60)} {seed()}")
     for lid in LINEARS:
         ops.append(f"codec obj linear {lid} 0 {seed()}")
-        for _ in range(3 if thorough else 1):
-            ops.append(f"codec obj linear {lid} {rng.range(12, 30)} {seed()}")
-    for _ in range(10 if thorough else 3):
-        k = rng.range(1, 3)
+        for _ in range(12 if thorough else 2):
+            ops.append(f"codec obj linear {lid} {rng.range(12, 40)} {seed()}")
+    for _ in range(40 if thorough else 8):
+        k = rng.range(1, 4)
         protos = rng.shuffle(WLEARNERS)[:k]
         ops.append(f"codec obj gboost {rng.range(20, 50)} {rng.range(1, 4)} {seed()} {k} {' '.join(protos)}")
     ops.append(f"codec obj gboost 0 2 {seed()} 2 affine dtree")
@@ -417,27 +417,26 @@ def gen(rng, tier):
     for ty in TNAMES:
         size, _ = TYPES[ty]
         for rank in range(1, 6):
-            if not thorough and (rank + TNAMES.index(ty)) % 3 != 0:
-                continue
-            ds = _dims(rng, rank, 6)
-            ops.append(f"codec corrupt {ty} {rank} {' '.join(map(str, ds))} {seed()} all")
+            for _ in range(3 if thorough else 1):
+                ds = _dims(rng, rank, 8 if thorough else 4)
+                ops.append(f"codec corrupt {ty} {rank} {' '.join(map(str, ds))} {seed()} all")
     for ty in TNAMES:
         size, _ = TYPES[ty]
         for rank in range(1, 6):
-            for _ in range(3 if thorough else 1):
+            for _ in range(6 if thorough else 1):
                 ds = _dims(rng, rank, 400 // size)
                 ops.append(f"codec corrupt {ty} {rank} {' '.join(map(str, ds))} {seed()} bits")
                 ds = _dims(rng, rank, 1600 // size)
                 ops.append(f"codec corrupt {ty} {rank} {' '.join(map(str, ds))} {seed()} xor {rng.range(1, 255)}")
     # zero-size tensors: header corruptions that keep the size 0 are accepted by the implementation (outside the statement)
-    for _ in range(12 if thorough else 4):
+    for _ in range(30 if thorough else 6):
         rank = rng.range(2, 5)
         ds = [rng.range(1, 6) for _ in range(rank)]
         ds[rng.below(rank)] = 0
         ops.append(f"codec corrupt {rng.choice(TNAMES)} {rank} {' '.join(map(str, ds))} {seed()} {'all' if thorough else 'bits'}")
 
     # 6. hand-made malformed streams
-    ops += malformed(rng, 12 if thorough else 3)
+    ops += malformed(rng, 40 if thorough else 6)
     return ops
 
 
@@ -566,7 +565,7 @@ def nontrivial(op):
             return t[3] != "none"
         if t[2] == "configurable":
             return int(t[3]) >= 1
-        return t[2] != "feature" or True
+        return t[2] != "feature"
     if t[1] == "corrupt":
         rank = int(t[3]); return prod(int(x) for x in t[4:4 + rank]) >= 2
     return True
@@ -605,3 +604,33 @@ def shrink_candidates(op):
     elif t[1] == "obj" and t[2] in ("wlearner", "linear") and int(t[4]) > 12:
         u = list(t); u[4] = str(max(12, int(t[4]) // 2)); out.append(" ".join(u))
     return out
+
+
+def static_checks():
+    """the two hand-written tables of Model/Wire.lean against the source text: the weak-learner type ids
+    (src/wlearner/*.cpp constructors) and the feature_type names in declaration order (include/nano/feature.h)"""
+    bad = []
+    wire = open(os.path.join(vlib.LEAN, "NanoVerif", "Model", "Wire.lean")).read()
+
+    def lean_bytes(txt):
+        return [bytes(int(x, 16) for x in re.findall(r"0x([0-9a-fA-F]{2})", row)).decode("ascii")
+                for row in re.findall(r"\[((?:\s*0x[0-9a-fA-F]{2}\s*,?)+)\]", txt)]
+
+    m = re.search(r"def featureNames : List Bytes := \[(.*?)\]\]", wire, re.S)
+    lean_feat = lean_bytes(m.group(1) + "]") if m else []
+    fh = open(os.path.join(vlib.REPO, "include", "nano", "feature.h")).read()
+    em = re.search(r"enum_map_t<feature_type>\s+enum_string\(\)\s*\{\s*return\s*\{(.*?)\};", fh, re.S)
+    src_feat = re.findall(r'feature_type::\w+\s*,\s*"([^"]+)"', em.group(1)) if em else []
+    if not src_feat or lean_feat != src_feat:
+        bad.append(f"featureNames of Model/Wire.lean {lean_feat} != enum_string<feature_type>() {src_feat}")
+    ids = set()
+    wdir = os.path.join(vlib.REPO, "src", "wlearner")
+    for fn in sorted(os.listdir(wdir)):
+        if fn.endswith(".cpp"):
+            ids |= set(re.findall(r":\s*(?:single_feature_wlearner_t|table_wlearner_t|wlearner_t)\(\"([^\"]+)\"\)",
+                                  open(os.path.join(wdir, fn)).read()))
+    m2 = re.search(r"def idAffine.*?def wkind", wire, re.S)
+    lean_ids = set(lean_bytes(m2.group(0))) if m2 else set()
+    if not ids or lean_ids != ids or set(WLEARNERS) != ids:
+        bad.append(f"weak-learner ids: source {sorted(ids)}, Model/Wire.lean {sorted(lean_ids)}, generator {sorted(WLEARNERS)}")
+    return bad
